@@ -211,7 +211,7 @@ def run(ctx):
         from translator import C12_linalg as T_lin
         _, tree = T_lin._src(ctx.repo)
         lin_txt = ("(* GENERATED from EasyFEA/FEM/_linalg.py (Det, Inv closed forms) by translator/C12_linalg.py *)\n"
-                   "From Coq Require Import List Arith ZArith QArith Reals.\nLocal Open Scope nat_scope.\n" + T_lin.emit_det_inv(T_lin.translate_det_inv(tree)))
+                   "From Coq Require Import List Arith ZArith QArith Reals.\nImport ListNotations.\nLocal Open Scope nat_scope.\n" + T_lin.emit_det_inv(T_lin.translate_det_inv(tree)))
     except (TranslateError, SyntaxError, OSError, KeyError) as ex:
         ctx.obligation("translate", False, str(ex))
         ctx.violation("translate", "translator rejected the source: %s" % ex, {"construct": str(ex)}, found_input=False)
